@@ -3,6 +3,7 @@ package h
 import (
 	"fmt"
 	"math/rand"
+	"runtime/debug"
 )
 
 // ---- programs --------------------------------------------------------------------------------
@@ -43,6 +44,7 @@ type ConcProfile struct {
 	PMerge    float64
 	PSel      float64
 	PMidDump  float64 // the scheduler dumps the primary between two steps
+	Snapshot  bool    // one more actor takes a snapshot meanwhile; it is restored into a fresh collection at the end
 	Keyed     bool    // rows are created through InsertKey / UpsertKey
 	Fine      bool    // park at commit.drawn as well
 	Schedules int     // schedules explored per program set
@@ -142,9 +144,15 @@ func (g *concGen) program(nrows int) []CTxn {
 // chooser decides which live actor runs next; n is the number of candidates.
 type chooser func(n int) int
 
-func runConcOnce(p ConcProfile, seed int64, progs [][]CTxn, choose chooser, midDump func() bool) []Ev {
+func runConcOnce(p ConcProfile, seed int64, progs [][]CTxn, choose chooser, midDump func() bool) (out []Ev) {
 	w := NewWorld()
 	defer w.Close()
+	defer func() {
+		if r := recover(); r != nil {
+			w.T.Log(Ev{"e": "panic", "t": "m", "what": fmt.Sprint(r), "stack": string(debug.Stack())})
+			out = w.T.Finish()
+		}
+	}()
 	P := w.NewColl("P", p.Capacity, p.Transport, 0)
 	var R *Coll
 	if p.Replica {
@@ -177,6 +185,8 @@ func runConcOnce(p ConcProfile, seed int64, progs [][]CTxn, choose chooser, midD
 	switch p.Prologue {
 	case "block1":
 		P.BulkInsert(16384 - (p.InitRows+1)/2)
+	case "edge": // the tracked rows fill block 0 exactly: the next insert opens a block that has never been committed
+		P.BulkInsert(16384 - p.InitRows)
 	case "three":
 		P.BulkInsert(2*16384 - (p.InitRows+1)/2)
 		P.BulkDelete(16384-uint32(p.InitRows/2)-1, 16384+uint32(p.InitRows/2))
@@ -245,6 +255,12 @@ func runConcOnce(p ConcProfile, seed int64, progs [][]CTxn, choose chooser, midD
 			}
 		})
 	}
+	if p.Snapshot {
+		s.Spawn("sn", func() {
+			s.Yield("api")
+			P.Snapshot("sn", "f1", nil)
+		})
+	}
 	for {
 		live := s.Live()
 		if len(live) == 0 {
@@ -267,6 +283,18 @@ func runConcOnce(p ConcProfile, seed int64, progs [][]CTxn, choose chooser, midD
 		if R != nil {
 			P.ReplayTo(R, "r")
 			R.Dump(0)
+		}
+		if _, ok := w.Blobs["f1"]; ok && p.Snapshot {
+			S := w.NewColl("S1", p.Capacity, p.Transport, 0)
+			S.Keys = P.Keys
+			for _, d := range p.Cols {
+				S.CreateColumn(d)
+			}
+			for _, x := range p.Idx {
+				S.CreateIndex(x)
+			}
+			S.Restore("rs", "f1", -1)
+			S.Dump(0)
 		}
 	}
 	return w.T.Finish()
@@ -367,6 +395,23 @@ func ConcProfileFor(name string, seed int64) ConcProfile {
 		p.Writers = 2 + r.Intn(2)
 		p.Txns = 2
 		p.Prologue = []string{"block1", "three"}[r.Intn(2)]
+	case "c08": // a snapshot beside committing writers, parked at every point of both protocols
+		p.Cols = []ColDesc{{"a", "int", []string{"add", "affine"}[r.Intn(2)], numRepr()}, {"s", "str", "", "string"}}
+		p.Idx = []IdxDesc{{"big", "a", "ge", 5}}
+		p.Snapshot = true
+		p.Replica = false
+		p.Writers = 2 + r.Intn(3)
+		p.Txns = 1 + r.Intn(2)
+		p.Prologue = []string{"", "block1", "edge", "three", "edge"}[r.Intn(5)]
+		p.Schedules = 12
+		p.PRollback, p.PFailIns = 0.1, 0.1
+		p.PInsert = 0.4
+	case "c08dfs":
+		p.Cols = []ColDesc{{"a", "int", "add", "int"}}
+		p.Snapshot = true
+		p.Replica = false
+		p.Mode, p.Schedules, p.MaxBody = "dfs", 500, 2
+		p.Prologue = []string{"", "block1"}[r.Intn(2)]
 	case "c12": // concurrent upserts / inserts / deletes of the same keys, parked between lookup and insert
 		p.Cols = []ColDesc{{"k", "key", "", "key"}, {"a", "int", "add", numRepr()}}
 		p.Keyed = true
